@@ -27,6 +27,7 @@ RAdd(a, b) == Norm(<<a[1] * b[2] + b[1] * a[2], a[2] * b[2]>>)
 RSub(a, b) == Norm(<<a[1] * b[2] - b[1] * a[2], a[2] * b[2]>>)
 RMul(a, b) == Norm(<<a[1] * b[1], a[2] * b[2]>>)
 RHalf(a) == Norm(<<a[1], 2 * a[2]>>)
+RDiv(a, b) == IF b[1] < 0 THEN Norm(<<0 - a[1] * b[2], 0 - a[2] * b[1]>>) ELSE Norm(<<a[1] * b[2], a[2] * b[1]>>)
 RLt(a, b) == a[1] * b[2] < b[1] * a[2]
 REq(a, b) == a[1] * b[2] = b[1] * a[2]
 Fix(r) == LET n == Norm(r) IN (n[1] * FP) \div n[2]     \* floor(r * 2^20)
@@ -96,6 +97,31 @@ InterpSeq(e) ==
                     [] f = 3 -> Fix(e.lv[i + 1])]
     IN <<Fix(e.off), Fix(e.lv[1]), n * FP, Fix(SumTimes(e, 1))>> \o seg
 Interp(e) == IF ValidCurves(e) THEN R("ok", InterpSeq(e)) ELSE R("exc", <<>>)
+
+(* ------------------------------ derived envelopes, duration ------------------------------
+   range(lo, hi) maps the levels linearly from [min level, max level] to [lo, hi]; exprange / curverange map
+   the extreme levels to lo / hi (their interior values are curved and not defined here); everything else is
+   kept.  duration is the sum of the times; assigning it scales every time by new / old.                 *)
+RECURSIVE MinLv(_, _)
+MinLv(lv, i) == IF i = Len(lv) THEN lv[i] ELSE LET m == MinLv(lv, i + 1) IN IF RLt(lv[i], m) THEN lv[i] ELSE m
+RECURSIVE MaxLv(_, _)
+MaxLv(lv, i) == IF i = Len(lv) THEN lv[i] ELSE LET m == MaxLv(lv, i + 1) IN IF RLt(m, lv[i]) THEN lv[i] ELSE m
+MapLevel(kind, x, mn, mx, lo, hi) ==
+    IF ~RLt(mn, x) THEN lo
+    ELSE IF ~RLt(x, mx) THEN hi
+    ELSE IF kind = "range" THEN RAdd(lo, RDiv(RMul(RSub(x, mn), RSub(hi, lo)), RSub(mx, mn)))
+    ELSE <<0, 0>>                                   \* interior of a curved mapping: not defined here
+DerivedLevels(e, kind, lo, hi) ==
+    LET mn == MinLv(e.lv, 1)
+        mx == MaxLv(e.lv, 1) IN
+    [i \in 1..Len(e.lv) |-> MapLevel(kind, e.lv[i], mn, mx, lo, hi)]
+Derivable(e, kind) ==       \* every level is defined by the mapping
+    kind = "range" \/ \A i \in 1..Len(e.lv) : REq(e.lv[i], MinLv(e.lv, 1)) \/ REq(e.lv[i], MaxLv(e.lv, 1))
+Derived(e, kind, lo, hi) == [e EXCEPT !.lv = DerivedLevels(e, kind, lo, hi)]
+\* times as the instance holds them (wrap-extended to the segment count at construction)
+FullTimes(e) == [i \in 1..NSeg(e) |-> TimeOf(e, i)]
+Duration(e) == SumTimes(e, 1)
+Rescaled(e, d) == [e EXCEPT !.tm = [i \in 1..NSeg(e) |-> RDiv(RMul(TimeOf(e, i), d), Duration(e))]]
 \* inputs of the EnvGen unit generator: gate, levelScale, levelBias, timeScale, doneAction, envelope array
 EnvGenInputs(e, ctl) == [i \in 1..5 |-> Fix(ctl[i])] \o FormatSeq(e)
 
